@@ -373,6 +373,14 @@ val list_existsb_eq : char list -> char list list -> bool
 
 val nodupb : char list list -> bool
 
+val str_take : nat -> char list -> char list
+
+val str_drop : nat -> char list -> char list
+
+val str_zeros : nat -> char list
+
+val py_positional : char list -> char list option
+
 type sexp =
 | SAtom of char list
 | SStr of char list
@@ -1416,6 +1424,8 @@ val clafer_value : aval -> char list
 
 val clafer_type : aval -> char list
 
+val in_any_number_group : feature option -> feature -> bool
+
 val clafer_tree : feature option -> feature -> clf
 
 val clafer_operator : astop -> char list option
@@ -1423,6 +1433,8 @@ val clafer_operator : astop -> char list option
 val clafer_node : node -> cexpr result
 
 val clafer_attrdecls : fm -> (char list * char list) list
+
+val nonfinite_float : aval -> bool
 
 val clafer_write : fm -> cdoc result
 
@@ -1433,6 +1445,8 @@ val cl_optional : clf -> bool
 val cl_none : (char list -> bool) -> clf -> bool
 
 val group_bounds : cgroup -> nat -> z * z
+
+val default_gcard : cgroup option -> bool
 
 val cl_sem : (char list -> bool) -> clf -> bool
 
